@@ -42,6 +42,7 @@ template <class SM> inline std::string snap_machine(SM& m, int mid) {
     return s;
 }
 template <class SM> inline int raw_seq(SM& m) { return defq_seq(m.m_deferred_events_queue, 0); }
+template <class SM> inline int own_queue_size(SM& m) { return (int)m.m_events_queue.m_events_queue.size(); }
 template <class H> inline auto defq_cap(H& h, int n, int) -> decltype(h.m_cur_seq, void()) { h.m_deferred_events_queue.set_capacity(n); }
 template <class H> inline void defq_cap(H&, int, long) {}
 template <class SM> inline void set_capacity(SM& m, int n) {
@@ -84,7 +85,19 @@ template <class SM> inline std::string snap_machine(SM& m, int mid) {
     return s;
 }
 template <class SM> inline int raw_seq(SM& m) { return (int)m.get_event_pool().cur_seq_cnt; }
+template <class SM> inline int own_queue_size(SM& m) { int n = 0; for (auto& e : m.get_event_pool().events) if (!(*e).marked_for_deletion()) n++; return n; }
 
+// serials of pool entries that were already processed but not yet erased (lazy deletion)
+template <class SM, class E> inline void collect_marked(SM& m, std::set<int>& out) {
+    using namespace boost::msm::backmp11::detail;
+    for (auto& pe : m.get_event_pool().events) {
+        event_occurrence& occ = *pe;
+        if (occ.m_process_fn == &deferred_event<E>::template try_process<SM>) {
+            auto& d = static_cast<deferred_event<E>&>(occ);
+            if (occ.marked_for_deletion()) out.insert(evinfo<E>::serial(d.m_event));
+        }
+    }
+}
 struct Mp11Visitor {
     std::string* out;
     template <class S> void operator()(S& s) { *out += std::to_string(s.vsid()) + ","; }
